@@ -148,7 +148,7 @@ class C10(Prop):
     ]
     quick_search_s = 90
     thorough_search_s = 600
-    coq_eval_timeout = 2400
+    coq_eval_timeout = 300
 
     def shards(self, tier, seed):
         if tier == "quick":
@@ -213,10 +213,26 @@ class C10(Prop):
         keys = []
         log = case.get("observed", {}).get("log") or []
         free = next((i for i, e in enumerate(log) if e["k"] == "phase"), len(log))
+        # the kind of the user stop that the first restart followed (a restart = StatusRunning written
+        # while no Start call is in flight); fall back to the last stop that returned nil
         stop_kind = "graceful"
+        nil_stops = {e.get("n") for e in log if e["k"] == "ret" and e.get("b") == "nil"
+                     and e.get("a") in ("stop", "stopwait", "force")}
+        starts, last_stop, found = 0, None, False
         for e in log[:free]:
-            if e["k"] == "ret" and e.get("b") == "nil" and e.get("a") in ("stop", "stopwait", "force"):
-                stop_kind = "force" if e.get("a") == "force" else "graceful"
+            if e["k"] == "call" and e.get("a") == "start":
+                starts, last_stop = starts + 1, None
+            elif e["k"] == "ret" and e.get("a") == "start":
+                starts -= 1
+            elif e["k"] == "call" and e.get("n") in nil_stops:
+                last_stop = "force" if e.get("a") == "force" else "graceful"
+            elif e["k"] == "st" and e.get("a") == "Running" and starts == 0 and last_stop:
+                stop_kind, found = last_stop, True
+                break
+        if not found:
+            for e in log[:free]:
+                if e["k"] == "ret" and e.get("b") == "nil" and e.get("a") in ("stop", "stopwait", "force"):
+                    stop_kind = "force" if e.get("a") == "force" else "graceful"
         for bit, name in RULES:
             if code & (1 << bit):
                 k = "%s/%s" % (eng, name)
